@@ -20,6 +20,27 @@ RULES = {
     "C17": "read phases with 1-4 interleaved walkers and printers (all NumberPolicy x Style x GameStatusPolicy, failing sinks) over chains built by histories",
 }
 
+# Rare-condition probes each property's workload is expected to reach; one that stays at
+# zero is listed under probes_at_zero and is a defect of the workload.
+COMMON_PROBES = ["castle-k-made", "castle-k-undone", "castle-q-made", "castle-q-undone", "ep-made", "ep-undone",
+                 "double-made", "double-undone", "promo-made", "promo-undone", "rollback-king-exposing",
+                 "promotion-with-capture", "promotion-capturing-rook-on-home-square", "ep-on-edge-file",
+                 "castling-with-a-single-right", "capture-of-home-rook-that-still-had-its-right",
+                 "push-right-after-pop", "refusal-right-after-pop", "refusal-right-after-special-move"]
+EXPECTED_PROBES = {
+    "C02": COMMON_PROBES + ["fen-accepted", "raw-accepted", "raw-rejected"],
+    "C04": COMMON_PROBES + ["null-made", "null-undone", "king-attacked-after-make", "unmake-from-king-attacked-state",
+                            "rook-captured-on-home-square"],
+    "C05": COMMON_PROBES + ["null-made", "null-undone", "same-key-revisited", "single-feature-diff", "counters-ignored-by-hash",
+                            "raw-accepted", "king-attacked-after-make"],
+    "C13": COMMON_PROBES + ["pop-of-position-counted-twice"],
+    "C14": COMMON_PROBES + ["repeat3", "repeat5", "moves50", "moves75", "insufficient", "stalemate", "checkmate",
+                            "repeat3-with-moves50", "repeat5-with-moves50", "auto-outcome-stored", "auto-outcome-filtered",
+                            "deep-repeat-check", "pop-of-position-counted-twice", "pop-of-position-counted-3-or-more"],
+    "C17": COMMON_PROBES + ["walker-direction-reversal", "walker-jump-start", "walker-jump-end", "print-black-start-numbered",
+                            "sink-error-at-byte-0", "sink-error-later"],
+}
+
 ASSUMPTIONS = [
     "exploration, not proof: seeded sampling of operation histories; a clean batch is evidence only for the histories explored",
     "reference model (mailbox move generator, attack test, material rule) is trusted; it is self-tested against published perft counts before every check",
@@ -59,6 +80,9 @@ def main():
     distinct = parts[0]["nontrivial_distinct"] if same_set else max(p["nontrivial_distinct"] for p in parts)
     violations = sum(p["violations"] for p in parts) + len(missing)
     probes = add_maps("probes")
+    for k in EXPECTED_PROBES[pid]:
+        probes.setdefault(k, 0)
+    probes = dict(sorted(probes.items()))
     zero_probes = sorted(k for k, v in probes.items() if v == 0)
     samples = next((p["samples"] for p in parts if p["samples"]), [])
     if not samples:
